@@ -43,6 +43,20 @@ def history(seed, max_runs, length, model, rep):
             plan = {}
             logs = {}
             will = named if named else [t["path"] for t in TARGETS]
+            if use_ck and runs and rng.chance(1, 6):
+                # the checkpoint is deleted (and taken again later): the recorded runs are not its business
+                rcd, _, _, errd = repo.mono("checkpoint", "delete")
+                rep.count("checkpoint_deleted")
+                md = model.ask({"op": "store", "max": max_runs, "runs": runs})
+                obs_d = storeobs.show_all(repo, max_runs)
+                want_d = expect[md["resultShow"] - 1][0] if md["resultShow"] else None
+                if obs_d["result"] != want_d:
+                    rep.oracle_fail({"kind": "store read APIs disagree with the history", "case": case, "after_run": n - 1,
+                                     "what": "result show is not the document of the most recent run after `checkpoint delete`",
+                                     "observed": obs_d["result"], "expected": want_d})
+                    return
+                if rng.chance(1, 2):
+                    repo.mono("checkpoint", "update")
             if use_ck and not named:
                 # change-detected run: nothing changed since the checkpoint (an empty run, which is
                 # still a completed run), or some targets edited just now
@@ -164,6 +178,57 @@ def history(seed, max_runs, length, model, rep):
         repo.done()
 
 
+def lowered_history(seed, model, rep):
+    """the retention limit is lowered in the middle of a history: from then on the slots cycle within
+    the new limit, the latest run stays addressable, and no directory beyond the largest limit ever
+    configured appears"""
+    rng = scen.Rng(seed)
+    hi, lo = rng.pick([(5, 2), (4, 3), (6, 2), (10, 3)])
+    repo = scen.Repo(TARGETS, max_retained_runs=hi, git=False)
+    case = {"seed": seed, "mode": "lowered", "from": hi, "to": lo}
+    try:
+        for t in TARGETS:
+            repo.install(t["path"], "build")
+        before = rng.range(lo + 1, hi)
+        for n in range(1, before + lo * 3 + 2):
+            if n == before + 1:
+                repo.cfg["max_retained_runs"] = lo
+                repo.write_config()
+            body = ("run %d\n" % n).encode()
+            repo.set_plan({"build|app": {"steps": [[0, 1, body.hex()]]}})
+            rc, j, out, err = repo.mono("run", "-c", "build", "-t", "app")
+            rep.evaluations += 1
+            if rc != 0 or j is None:
+                rep.oracle_fail({"kind": "store read APIs disagree with the history", "case": case, "after_run": n,
+                                 "what": "run failed", "rc": rc, "stderr": err[-300:]})
+                return
+            obs = storeobs.show_all(repo, hi)
+            ptr = None
+            try:
+                import json as _j
+                ptr = _j.load(open(repo.out_dir + "/tracking/run.json"))["id"]
+            except (OSError, ValueError):
+                pass
+            cur = hi if n <= before else lo
+            fail = None
+            if obs["result"] != storeobs.canon_doc(j):
+                fail = "result show is not the document of the most recent run"
+            elif (obs["logs"] or {}).get(("stdout", "app", "build")) != body:
+                fail = "log show is not exactly the most recent run's logs"
+            elif ptr is None or ptr > cur:
+                fail = "the run used a slot beyond max_retained_runs (slot %s, limit %d)" % (ptr, cur)
+            elif len(obs["dirs"]) > hi:
+                fail = "more run directories than the largest limit ever configured"
+            if fail:
+                rep.oracle_fail({"kind": "store read APIs disagree with the history", "case": case, "after_run": n, "what": fail,
+                                 "pointer": ptr, "dirs": obs["dirs"]})
+                return
+        rep.count("lowered_histories")
+        rep.nontrivial_case(case)
+    finally:
+        repo.done()
+
+
 def main():
     args = scen.parse_args(sys.argv)
     t0 = time.time()
@@ -179,7 +244,12 @@ def main():
             if mx >= 10:
                 ln = rng.range(mx + 2, mx + 6) if args["tier"] == "quick" else rng.range(2 * mx + 2, 3 * mx)
             cases.append({"seed": rng.next(), "max": mx, "length": min(ln, 40)})
+    lowered = [c for c in cases if c.get("mode") == "lowered"]
+    cases = [c for c in cases if c.get("mode") != "lowered"]
+    if args["budget"] > 0:
+        lowered += [{"seed": rng.next(), "mode": "lowered"} for _ in range((10 if args["tier"] == "thorough" else 2) * args["budget"])]
     scen.run_cases(lambda c: history(c["seed"], c["max"], c["length"], model, rep), cases, rep, 8)
+    scen.run_cases(lambda c: lowered_history(c["seed"], model, rep), lowered, rep, 4)
     scen.finish(args, rep, t0, model)
 
 
